@@ -286,6 +286,34 @@ def shuffle_masks(n, rnd, nrandom, per128, full=True):
                 other = ((mm[p] - srcoff) + per128 * (1 + rnd.randrange(max(1, n // per128 - 1)))) % n
                 mm[p] = srcoff + other
                 add("in_lane_xy_oneoff", mm)
+    if per128 < n and per128 >= 2:
+        # the same in-lane pattern replicated in every 128-bit lane (what vshufps/vshufpd can do), in both orientations:
+        # low half of each lane from x and high half from y ("within lane"), or the opposite; with one-off neighbours
+        # (index from another lane, other source, second lane differing from the first) at every position
+        for orient in ("xy", "yx"):
+            for _ in range(max(2, nrandom // 2)):
+                pat = [rnd.randrange(per128) for _ in range(per128)]
+                m = []
+                for i in range(n):
+                    j = i % per128
+                    from_y = (j % 2 == 1) if per128 == 2 else (j >= per128 // 2)
+                    if orient == "yx":
+                        from_y = not from_y
+                    m.append((i // per128) * per128 + pat[j] + (n if from_y else 0))
+                add("rep_lane_" + orient, m)
+                for pos in (range(n) if n <= 8 else sorted({0, 1, per128 - 1, per128, n // 2, n - 1, rnd.randrange(n)})):
+                    mm = list(m)
+                    srcoff = n if mm[pos] >= n else 0
+                    mm[pos] = srcoff + ((mm[pos] - srcoff) + per128) % n
+                    add("rep_lane_%s_otherlane" % orient, mm)
+                    mm = list(m)
+                    mm[pos] = (mm[pos] + n) % (2 * n)
+                    add("rep_lane_%s_othersrc" % orient, mm)
+                    mm = list(m)
+                    srcoff = n if mm[pos] >= n else 0
+                    lane0 = ((mm[pos] - srcoff) // per128) * per128
+                    mm[pos] = srcoff + lane0 + ((mm[pos] - srcoff) - lane0 + 1) % per128
+                    add("rep_lane_%s_otherindex" % orient, mm)
     for _ in range(nrandom):
         add("random", [rnd.randrange(2 * n) for _ in range(n)])
         add("random_select", [i + n * rnd.randrange(2) for i in range(n)])
@@ -411,7 +439,7 @@ def c19_records(target, tier, rnd):
         if cap("shuffle", target, ty) and cap("swizzle_dyn", target, ty) and n >= 2:
             ms = shuffle_masks(n, rnd, 2 if tier == "quick" else 30, per128, full=(tier != "quick"))
             if tier == "quick":
-                ms = [x for x in ms if x[0].startswith("in_lane_xy")][:2 * n + 4] + rnd.sample(ms, min(len(ms), 8))
+                ms = [x for x in ms if x[0].startswith("in_lane_xy")][:2 * n + 4] + [x for x in ms if x[0] in ("rep_lane_xy", "rep_lane_yx")] + rnd.sample(ms, min(len(ms), 8))
             for name, m in ms:
                 both = any(x < n for x in m) and any(x >= n for x in m)
                 if not both and not (cap("swizzle_const", target, ty) and cap("swizzle_const_mix", target, ty)):
